@@ -3,8 +3,10 @@
    its Drop over the in-flight map and one single-message broadcast channel per leader).
    Quantified over every list of events: Call i k (service.call for caller i with key k: the role
    is decided here, and a leader's inner call starts here), CallPanic i k (the same call() with an
-   inner service whose call() panics if this request reaches it), Poll i, Drop i (cancellation at
-   any point), Complete i o (caller i's own inner call finishes with o in {ok, err, panic}; never =
+   inner service whose call() panics if this request reaches it), CallPanicRec i k (the same call()
+   during which the metrics recorder / tracing subscriber panics - code that runs right after the
+   role is decided, in either role), Poll i, Drop i (cancellation at
+   any point), Advance d (d milliseconds pass), Complete i o (caller i's own inner call finishes with o in {ok, err, panic}; never =
    no Complete), Arm i (the next Clone of a value produced by caller i's inner call panics), for any
    number of callers and keys, in any order; and over both ways a pending waiter may arrange to be
    polled again (b = true: it wakes itself at once, which is what the code does and what run_script
@@ -121,6 +123,31 @@ Theorem C11_sync_panic_frees_key :
 Proof. exact sync_panic_frees_key. Qed.
 Print Assumptions C11_sync_panic_frees_key.
 
+(* The metrics recorder (feature `metrics`) or the tracing subscriber (feature `tracing`) panics inside
+   call(), right after the role was decided: call() unwinds (r = 5) and that request is gone - it
+   never makes an inner call - but nothing else is: map and in-flight set are unchanged, no other
+   caller and no other channel is touched (a leader and its waiters are not disturbed by a request
+   that would have waited on it), and if no caller led the key it is still free: the next call()
+   for it leads a fresh inner call.  This and C11_sync_panic_frees_key are the two places of call()
+   where code not written in the crate runs between the registration of the key and the
+   construction of the future that owns it. *)
+Theorem C11_recorder_panic_frees_key :
+  forall (b : bool) (evs : list ev) (i k : nat),
+    let s := run_b b evs in
+    cs s i = Idle ->
+    let s1 := step_st s (CallPanicRec i k) in
+    r (snd (step s (CallPanicRec i k))) = 5 /\ cs s1 i = Done /\
+    inflight s1 = inflight s /\ reqs s1 = reqs s /\
+    (forall j, j <> i -> cs s1 j = cs s j /\ chan s1 j = chan s j) /\
+    (forall evs2, ~ In i (inflight (fold_left step_st evs2 s1))) /\
+    ((forall l, cs s l <> Leading k) ->
+       (forall l, cs s1 l <> Leading k) /\
+       forall j, cs s1 j = Idle ->
+         cs (step_st s1 (Call j k)) j = Leading k /\
+         inflight (step_st s1 (Call j k)) = inflight s1 ++ [j]).
+Proof. exact recorder_panic_frees_key. Qed.
+Print Assumptions C11_recorder_panic_frees_key.
+
 (* The Clone made for one waiter panics (the leader has completed, its result is in the channel):
    that waiter's poll panics and nothing else changes - the other waiters still get the result
    (C11_sent_delivers applies to them: the armed panic is used up). *)
@@ -137,7 +164,8 @@ Print Assumptions C11_clone_panic_waiter.
 
 (* Results travel only along the leader's own channel: a waiter has the key of its leader; a value
    it receives is the one its leader's channel holds and names that leader; and the channel created
-   by caller l0 is changed by no event other than l0's own call / poll / drop. *)
+   by caller l0 is changed by no event other than l0's own call (of any of the three kinds) / poll /
+   drop. *)
 Theorem C11_no_cross_key :
   forall (b : bool) (evs : list ev) (i l : nat),
     let s := run_b b evs in
@@ -147,7 +175,8 @@ Theorem C11_no_cross_key :
        val (snd (step s (Poll i))) = Z.of_nat l /\
        exists o, chan s l = Sent o /\ r (snd (step s (Poll i))) = code o) /\
     (forall e l0, e <> Poll l0 -> e <> Drop l0 -> (forall k, e <> Call l0 k) ->
-       (forall k, e <> CallPanic l0 k) -> chan (step_st s e) l0 = chan s l0).
+       (forall k, e <> CallPanic l0 k) -> (forall k, e <> CallPanicRec l0 k) ->
+       chan (step_st s e) l0 = chan s l0).
 Proof. exact no_cross_key. Qed.
 Print Assumptions C11_no_cross_key.
 
@@ -246,6 +275,19 @@ Theorem C11_waiter_cancel_is_local :
     forall evs2, ~ In i (inflight (fold_left step_st evs2 s1)).
 Proof. exact waiter_cancel_is_local. Qed.
 Print Assumptions C11_waiter_cancel_is_local.
+
+(* Time: the model of the crate has no timer, so the passage of time is invisible - an Advance
+   changes no state and yields no result, and deleting every Advance from an event list leaves
+   the reached state (hence every later observation) the same.  "All arrival / completion
+   instants" of the property are therefore covered by all event ORDERS; that the code really has no
+   timer is what the Advance events of the correspondence run check (a waiter or leader that gave
+   up after some time would differ from this model at its next poll). *)
+Theorem C11_time_is_irrelevant :
+  (forall (s : st) (d : Z), step s (Advance d) = (s, no_obs)) /\
+  (forall (b : bool) (evs : list ev),
+     run_b b (filter (fun e => negb (is_advance e)) evs) = run_b b evs).
+Proof. exact time_is_irrelevant. Qed.
+Print Assumptions C11_time_is_irrelevant.
 
 (* What the correspondence check compares is the run of `step`: the k-th row of the trace
    run_script prints for a script is the observation of the k-th event taken from `run` of the
